@@ -233,7 +233,7 @@ _DHCP_RULE = ('histories of client messages to the real dhcp4_spoofer handler, e
               'offered / other), selecting another server, renewing, rebooting, DECLINE, RELEASE, INFORM, with and without client-id option and parameter request list; Capture/Release toggles; '
               'time advances 5 s / 1 min / lease/2 / lease+ followed by MinuteTicker; a foreign server\'s OFFER on port 68; frames that make the session track an address. Three network '
               'configurations (home /28 + netfilter /29, /24 + /25, /28 + /30: small pools so wrap-around and exhaustion happen) and one whose netfilter subnet shares the network address of the home LAN '
-              '(/24 + /25 low half), three modes, DNS configured or not; mid-history server restarts from the lease file (handler only, or session + handler: empty host table, capture flags gone). '
+              '(/24 + /25 low half), each of the four also - one history in seven - with a netfilter gateway (Config.NetfilterIP) that is not the host address but the next one, three modes, DNS configured or not; mid-history server restarts from the lease file (handler only, or session + handler: empty host table, capture flags gone). '
               'Bounded-exhaustive over a 15-operation alphabet on two clients to depth 3 (quick) / 5 (thorough) plus PRNG histories of length 30 on three clients. Oracle: wire-only monitor (requests built and replies '
               'decoded by refdec) with a shadow table of acknowledged bindings. Non-trivial = a history with at least one ACK; distinct = (operation-kind multiset, network configuration)')
 for _p in ('C11', 'C12'):
@@ -243,12 +243,12 @@ for _p in ('C11', 'C12'):
                      'C11 shadow ends a binding generously (expiry, DECLINE/RELEASE, NAK, re-ACK, the client\'s next DISCOVER); C12 "current lease" ends only on expiry, DECLINE/RELEASE, NAK, re-ACK',
                      'MinuteTicker is called by the harness after every time advance (documented usage)'],
         exhaustive={'quick': True, 'thorough': True}, exhaustive_note='exhaustive only for the 14-operation alphabet up to exhaustive_depth', obs_max=['exhaustive_depth'],
-        min_obs={'quick': {'dhcp_acks': 2000, 'dhcp_offers': 5000, 'dhcp_naks': 500, 'capture_toggles': 500, 'dhcp_expiries': 100}, 'thorough': {'dhcp_acks': 2000}},
+        min_obs={'quick': {'dhcp_acks': 2000, 'dhcp_offers': 5000, 'dhcp_naks': 500, 'capture_toggles': 500, 'dhcp_expiries': 100, 'histories_with_a_netfilter_gateway_other_than_the_host_address': 100}, 'thorough': {'dhcp_acks': 2000}},
         timeout={'quick': 1200, 'thorough': 8*3600},
     )
 META['C11'] = dict(
     technique='runtime monitoring: online wire monitor with a shadow binding table over the DHCP replies of the real handler, virtual time, bounded-exhaustive + random histories',
-    level_text='Exploration, exhaustive over a 14-operation alphabet to depth 3 (quick) / 5 (thorough): every OFFER/ACK on the wire is checked against the shadow of acknowledged bindings and the reserved-address rules (own, router, network, broadcast, outside the subnet, tracked for another MAC).',
+    level_text='Exploration, exhaustive over a 14-operation alphabet to depth 3 (quick) / 5 (thorough): every OFFER/ACK on the wire is checked against the shadow of acknowledged bindings and the reserved-address rules (own LAN address, own netfilter gateway address, router, network, broadcast, outside the subnet, tracked for another MAC).',
     level_note='Trusted base: refdec DHCP codec, the shadow-table rules of appendix B, synctest virtual time for lease expiry.')
 META['C12'] = dict(
     technique='runtime monitoring: online wire monitor of reply options and transaction conformance per capture state, virtual time',
@@ -267,7 +267,7 @@ PROPS['C18'] = dict(
     assumptions=['the harness reads lease files with its own YAML struct (gopkg.in/yaml.v2), not with the handler\'s loader',
                  'the restarted handler shares the session (capture state lives in the session)', 'MinuteTicker runs after a restart before the probes (documented usage)'],
     exhaustive={'quick': False, 'thorough': True}, exhaustive_note='thorough enumerates every prefix, every listed substitution at every offset and every line fault of each snapshot; quick samples the substitution offsets',
-    min_obs={'quick': {'restarts_checked': 300, 'renewals_after_restart': 300, 'lease_file_snapshots': 3, 'outcome:empty': 500, 'outcome:intact': 50},
+    min_obs={'quick': {'restarts_checked': 300, 'renewals_after_restart': 300, 'lease_file_snapshots': 3, 'histories_with_a_netfilter_gateway_other_than_the_host_address': 20, 'outcome:empty': 500, 'outcome:intact': 50},
              'thorough': {'restarts_checked': 300}},
     timeout={'quick': 1200, 'thorough': 8*3600},
 )
@@ -337,10 +337,10 @@ PROPS['C10'] = dict(
           'offer seen) / renew with client-id, host name and parameter list, router advertisements with generated option lists (x4), DNS and mDNS responses, NBNS, SSDP, ARP, IPv4 and IPv6 host '
           'frames, Capture/Release, time advances with MinuteTicker. Each history is executed twice with identical virtual times: (A) every packet is delivered in ONE shared receive buffer that is '
           'overwritten with a5 / 5a / PRNG bytes as soon as Parse+ProcessPacket+Notify return, (B) every packet in a private never-modified buffer. Per step the two runs are compared on: notification '
-          'multiset, emitted frames (DHCP canonicalised by sorted options), host and MAC tables with all five names, DHCP offers, DNSFind of every name seen, FindRouter with all option fields, and the '
+          'multiset, emitted frames (DHCP canonicalised by sorted options), host and MAC tables with all five names, DHCP offers, DNSFind of every name seen, FindRouter with all option fields, the entries ProcessMDNS returned so far (= its duplicate cache; re-read after the overwrite), and the '
           'lease file. Non-trivial = a history in which some handler retained something (lease, router, DNS entry); distinct = number of retention points'),
     assumptions=['both runs see identical virtual time (synctest), so any difference is caused by the buffer reuse', 'map iteration order differences are removed by canonicalisation (sorting)'],
-    min_obs={'quick': {'retention_points_compared': 3000, 'transcript_lines_compared': 100000}, 'thorough': {'retention_points_compared': 3000}},
+    min_obs={'quick': {'retention_points_compared': 3000, 'transcript_lines_compared': 100000, 'mdns_entries_reread_after_overwrite': 1000}, 'thorough': {'retention_points_compared': 3000}},
     timeout={'quick': 1200, 'thorough': 6*3600},
 )
 META['C10'] = dict(
